@@ -1,5 +1,8 @@
--- driver for C08 (stub)
-def step (_line : String) : String := "bad-op"
+-- driver for C08: gcno/gcda model (same handler as gm_c15)
+import GrcovModel.Drv.C08
+open Grcov.Drv
+
+def step (line : String) : String := stepC08 line
 
 partial def loop (h : IO.FS.Stream) (out : IO.FS.Stream) : IO Unit := do
   let line ← h.getLine
